@@ -268,6 +268,38 @@ func VxC14_SpecialValues() {
 	vx.Assert(sum2 == sum+1, "Add increments exactly one counter (special values)")
 }
 
+// VxC14_LinearExactEdges: on a histogram whose edges and bin width are exact in float64
+// (NewLinearHist(2, 5, 3): delta = 1, x-2 is exact next to every edge), the stated half-open bins are
+// decided bit-precisely for every float64 x: under iff x < 2, bin i iff 2+i <= x < 3+i, over iff
+// x >= 5 - in particular x exactly equal to max is over-flow ("at or above the end of the last bin"),
+// which the exact-real harness can only say in a clause the native replay cannot evaluate.
+//
+//vx:mode FP
+//vx:solver cvc5
+//vx:timeout 60000
+//vx:bound NewLinearHist(2, 5, 3) and NewLinearHist(0, 4, 4) (delta exactly 1, and x-min exact next to every edge); x any float64 with |x| <= 1e15 (every edge neighbourhood, subnormals and zeros included)
+//vx:outside histograms whose delta, edges or x-min round - e.g. NewLinearHist(-4, 4, 4), where x = -1e-300 gives x+4 = 4 and is binned above the edge 0 (there a value within rounding distance of an edge may fall on either side); |x| > 1e15 and NaN: beyond 2^63 the float->int conversion in bin() is implementation-defined in Go (the engine models it as an arbitrary int64, so which overflow counter such a value reaches is not decided here; that exactly one counter moves is decided by VxC14_SpecialValues and VxC14_LinearConservation)
+func VxC14_LinearExactEdges() {
+	x := vx.Float("x")
+	vx.Assume(x >= -1e15 && x <= 1e15)
+	var h *LinearHist
+	var lo, w float64
+	var nb int
+	if vx.Choose("hist", 0, 1) == 0 {
+		h, lo, w, nb = NewLinearHist(2, 5, 3), 2, 1, 3
+	} else {
+		h, lo, w, nb = NewLinearHist(0, 4, 4), 0, 1, 4
+	}
+	h.Add(x)
+	hi := lo + w*float64(nb)
+	vx.Assert((h.low == 1) == (x < lo), "under-flow exactly for x below the first edge (exact edges)")
+	vx.Assert((h.high == 1) == (x >= hi), "over-flow exactly for x at or above the last edge (exact edges)")
+	for i := 0; i < nb; i++ {
+		a := lo + w*float64(i)
+		vx.Assert((h.bins[i] == 1) == (x >= a && x < a+w), "bin i holds exactly the values in [edge i, edge i+1) (exact edges)")
+	}
+}
+
 func vxNameN(p string, i int) string {
 	return p + string(rune('a'+i))
 }
